@@ -147,6 +147,53 @@ pub fn write_opt<T: lexical_core::ToLexicalWithOptions + Copy, const FORMAT: u12
     catch(|| lexical_core::write_with_options::<T, FORMAT>(v, buf, opts).to_vec())
 }
 
+/// Outcome of one monitored write call (M-panic + M-canary + M-shape).
+#[derive(Clone, Debug)]
+pub struct W {
+    /// Ok(bytes of the returned slice) or Err(panic message)
+    pub res: Result<Vec<u8>, String>,
+    /// the returned slice started at the first byte of the caller's buffer
+    pub at_start: bool,
+    /// canary bytes next to the buffer (unguarded side) are intact
+    pub zone_ok: bool,
+    /// bytes of the buffer past the returned length that were modified (scribble inside the slice: allowed, counted)
+    pub scribbled: usize,
+}
+const WTAG: u8 = 0x5a;
+/// write with options into an exact-size guarded + canaried buffer of `len` bytes
+pub fn write_opt_w<T: lexical_core::ToLexicalWithOptions + Copy, const FORMAT: u128>(arena: &mut Arena, v: T, len: usize, place: Place, opts: &T::Options) -> W {
+    arena.arm_zone(len, place, WTAG);
+    let buf = arena.output(len, place, WTAG);
+    let start = buf.as_ptr() as usize;
+    let r = catch(|| {
+        let out = lexical_core::write_with_options::<T, FORMAT>(v, buf, opts);
+        (out.as_ptr() as usize, out.to_vec())
+    });
+    finish_w(arena, r, start, len, place)
+}
+/// default API
+pub fn write_default_w<T: lexical_core::ToLexical + Copy>(arena: &mut Arena, v: T, len: usize, place: Place) -> W {
+    arena.arm_zone(len, place, WTAG);
+    let buf = arena.output(len, place, WTAG);
+    let start = buf.as_ptr() as usize;
+    let r = catch(|| {
+        let out = lexical_core::write(v, buf);
+        (out.as_ptr() as usize, out.to_vec())
+    });
+    finish_w(arena, r, start, len, place)
+}
+fn finish_w(arena: &mut Arena, r: Result<(usize, Vec<u8>), String>, start: usize, len: usize, place: Place) -> W {
+    let zone_ok = arena.zone_intact(len, place, WTAG);
+    match r {
+        Ok((p, bytes)) => {
+            let buf = arena.slice_again(len, place);
+            let scribbled = (bytes.len().min(len)..len).filter(|&i| buf[i] != crate::guard::canary(WTAG, i)).count();
+            W { res: Ok(bytes), at_start: p == start, zone_ok, scribbled }
+        },
+        Err(e) => W { res: Err(e), at_start: true, zone_ok, scribbled: 0 },
+    }
+}
+
 /// The 12 integer types behind one interface (value as sign + u128 magnitude).
 pub trait LInt:
     Copy
